@@ -205,6 +205,16 @@ def schedule_notifies(ctx, db):
             cmp_after = [it for it in tr[pb:] if it.k == 'call' and norm(it.get('field') or '') == S and op(it) == 'operator[]'] if pb >= 0 else []
             if pb < 0:
                 bad = bad or ('the entry is not inserted', tr); continue
+            # direction of the decision: the worker must be woken when the current top is LATER than the new entry
+            for it in tr[:pb]:
+                if it.k == 'cmp' and it.get('op') in ('<', '>', '<=', '>='):
+                    l_, r_ = it.get('lhs') or '', it.get('rhs') or ''
+                    top_l = bool(re.search(r'_scheduled\[\]\._tp$', l_)); top_r = bool(re.search(r'_scheduled\[\]\._tp$', r_))
+                    if top_l == top_r:
+                        continue
+                    later = it['op'] in ('>', '>=') if top_l else it['op'] in ('<', '<=')
+                    if not later:
+                        bad = bad or ('the decision compares the wrong way round (%s %s %s): the worker is woken for entries later than the current top, not for earlier ones' % (l_, it['op'], r_), tr)
             if cmp_after:
                 bad = bad or ('"is the new entry the earliest" is evaluated after the insertion', tr)
             if was_empty is True and flag is False:
@@ -215,6 +225,8 @@ def schedule_notifies(ctx, db):
                     bad = bad or ('the worker is not notified although the new entry is the earliest', tr)
         if nn == 0 and not bad:
             bad = ('no path notifies the worker', trs[0] if trs else [])
+        if not bad and not any(it.k == 'cmp' and re.search(r'_scheduled\[\]\._tp$', (it.get('lhs') or '')) != re.search(r'_scheduled\[\]\._tp$', (it.get('rhs') or '')) and (re.search(r'_scheduled\[\]\._tp$', (it.get('lhs') or '')) or re.search(r'_scheduled\[\]\._tp$', (it.get('rhs') or ''))) for tr in trs for it in tr):
+            raise Broken('schedule: the comparison of the new entry with the top of the heap was not recognised')
         ctx.ob(rid, f, f['key'], bad is None, 'decide before insert, notify when earliest' + ('' if not bad else ' -- ' + bad[0]), desc=bad[0] if bad else None, trace=fmt_trace(bad[1]) if bad else None)
 
 
@@ -343,6 +355,29 @@ def interval_ident(ctx, db):
     ok = sl is not None and cb is not None and norm_id(sl) == norm_id(cb)
     ctx.ob(rid, f, f['key'], ok, 'stop callback cancels %s, sleeps are scheduled with %s' % (cb, sl), desc='interval stop callback cancels a different identifier than it sleeps with')
     ctx.ob(rid, f, f['key'], not cb_lock, 'the stop callback does not hold the scheduler lock when it calls cancel', desc='interval stop callback locks around cancel')
+    # the cancel issued by the stop callback only hits a sleep that is pending: a stop that arrives while the generator is parked in co_yield
+    # (or before its first step) finds nothing to cancel, so every round must look at the token before it schedules the next sleep
+    T = Tracer(db, depth=0, maxvisit=2)
+    trs = T.traces(f)
+    ctx.paths(rid, len(trs))
+    bad = None; nsl = 0
+    for tr in trs:
+        for i, it in enumerate(tr):
+            if it.k == 'call' and (norm(it.get('callee') or '').endswith('future::operator<<') or norm(it.get('callee') or '') == 'cocls::scheduler::sleep_until'):
+                nsl += 1
+                polled = False
+                for b in reversed(tr[:i]):
+                    if b.k == 'co_yield':
+                        break
+                    if b.k == 'branch':
+                        ce = cond_event(tr, tr.index(b))
+                        if ce is not None and ce.k == 'call' and norm(ce.get('callee') or '') == 'std::stop_token::stop_requested' and b.val is False:
+                            polled = True; break
+                if not polled:
+                    bad = bad or tr
+    if nsl == 0:
+        raise Broken('scheduler::interval schedules no sleep: anchor changed')
+    ctx.ob(rid, f, f['key'], bad is None, 'every round tests stop_requested() before it schedules the next sleep', desc='interval schedules a sleep without polling the stop token', trace=fmt_trace(bad) if bad else None)
 
 
 def by_value(ctx, db):
